@@ -12,14 +12,37 @@ use std::time::Duration;
 pub struct RecSink {
     pub lines: Arc<Mutex<Vec<String>>>,
     pub fail: bool,
+    /// outcome per emit ("ok" | "err:<io::ErrorKind name>"); after the script is used up `fail` applies
+    pub script: Vec<String>,
+}
+
+pub fn kind_from_name(n: &str) -> io::ErrorKind {
+    match n {
+        "Interrupted" => io::ErrorKind::Interrupted,
+        "WouldBlock" => io::ErrorKind::WouldBlock,
+        "NotFound" => io::ErrorKind::NotFound,
+        "PermissionDenied" => io::ErrorKind::PermissionDenied,
+        "ConnectionRefused" => io::ErrorKind::ConnectionRefused,
+        "ConnectionReset" => io::ErrorKind::ConnectionReset,
+        "BrokenPipe" => io::ErrorKind::BrokenPipe,
+        "TimedOut" => io::ErrorKind::TimedOut,
+        "WriteZero" => io::ErrorKind::WriteZero,
+        "InvalidInput" => io::ErrorKind::InvalidInput,
+        "InvalidData" => io::ErrorKind::InvalidData,
+        "UnexpectedEof" => io::ErrorKind::UnexpectedEof,
+        "AddrInUse" => io::ErrorKind::AddrInUse,
+        "NotConnected" => io::ErrorKind::NotConnected,
+        _ => io::ErrorKind::Other,
+    }
 }
 
 impl MetricSink for RecSink {
     fn emit(&self, metric: &str) -> io::Result<usize> {
         let mut l = self.lines.lock().unwrap();
         l.push(metric.to_string());
-        if self.fail {
-            Err(io::Error::new(io::ErrorKind::Other, format!("sink-refused#{}", l.len())))
+        let step = self.script.get(l.len() - 1).cloned().unwrap_or_else(|| if self.fail { "err:Other".to_string() } else { "ok".to_string() });
+        if let Some(k) = step.strip_prefix("err:") {
+            Err(io::Error::new(kind_from_name(k), format!("sink-refused#{}", l.len())))
         } else {
             Ok(metric.len())
         }
@@ -96,7 +119,9 @@ pub fn replay(sc: &Value) -> Value {
     let lines = Arc::new(Mutex::new(vec![]));
     let handled: Arc<Mutex<Vec<(String, String)>>> = Arc::new(Mutex::new(vec![]));
     let fail = sc["sink"].as_str() == Some("err");
-    let sink = RecSink { lines: lines.clone(), fail };
+    let script: Vec<String> = sc["sink_script"].as_array().map(|a| a.iter().map(|x| x.as_str().unwrap_or("ok").to_string()).collect()).unwrap_or_default();
+    let fail = script.first().map(|s| s.starts_with("err")).unwrap_or(fail);
+    let sink = RecSink { lines: lines.clone(), fail, script };
     let h2 = handled.clone();
     let mut b = StatsdClient::builder(&prefix, sink).with_error_handler(move |e: MetricError| {
         h2.lock().unwrap().push((kind_name(&e), e.to_string()));
